@@ -220,6 +220,8 @@ func (o Op) String() string {
 		return fmt.Sprintf("Filters()[%d].SetFilter(len %d)/SetOptions(%d)", o.N, len(o.B), o.ID)
 	case "dupfilter":
 		return fmt.Sprintf("AddFilters(Filters()[%d]): the same TopicFilter value a second time", o.N)
+	case "sibling":
+		return "build ANOTHER packet of the same type (user properties, list elements) and drop it"
 	case "editwill":
 		return fmt.Sprintf("c.Will().AddUserProp(%d pairs): edit the attached will through the accessor, no new SetWill", len(o.KV))
 	case "rewill":
@@ -589,6 +591,38 @@ func Apply(p mq.Packet, o Op) error {
 			return nil
 		}
 		x.AddFilters(x.Filters()[int(o.N)%len(x.Filters())])
+	case "sibling":
+		// another packet of the same type comes into being and gets its first user
+		// properties and list elements: this packet must not feel it
+		func() {
+			defer func() { recover() }()
+			q := New(TypeOf(p))
+			n := 1 + int(o.N%3)
+			for i := 0; i < n; i++ {
+				if x, ok := q.(interface{ AddUserProp(...string) }); ok {
+					x.AddUserProp("sibling-key", "sibling-value")
+				}
+				switch x := q.(type) {
+				case *mq.Subscribe:
+					x.AddFilters(mq.NewTopicFilter("sibling/filter", mq.OptQoS1))
+				case *mq.Unsubscribe:
+					x.AddFilter("sibling/filter")
+				case *mq.SubAck:
+					x.AddReasonCode(0x80)
+				case *mq.UnsubAck:
+					x.AddReasonCode(0x80)
+				case *mq.Publish:
+					x.AddSubscriptionID(77)
+					x.SetPayload([]byte("sibling"))
+				case *mq.Connect:
+					w := mq.NewPublish()
+					w.SetTopicName("sibling/will")
+					w.AddUserProp("sibling-key", "sibling-value")
+					x.SetWill(w)
+				}
+			}
+			q.WriteTo(discard{})
+		}()
 	case "editwill":
 		// what Will() returns IS the attached message (SetWill keeps the pointer):
 		// user properties added through it belong to the CONNECT's will
